@@ -1434,7 +1434,7 @@ def callees_transitive(unit, node, depth=2, _seen=None):
     return out
 
 
-def walk_inl(unit, node, depth=2, _seen=None, exclude=()):
+def walk_inl(unit, node, depth=2, _seen=None, exclude=(), max_nodes=400):
     """Like walk(), but also descends into the bodies of same-crate functions called below `node` (up to `depth` levels): a rule that
     looks for a construct inside an anchor function keeps finding it after the construct was extracted into a private helper."""
     _seen = _seen if _seen is not None else set(norm_path(e) for e in exclude)
@@ -1446,7 +1446,11 @@ def walk_inl(unit, node, depth=2, _seen=None, exclude=()):
                 cal = unit.norm.get(p_)
                 if cal and "hir" in cal and cal.get("dk") != "Closure":
                     _seen.add(p_)
-                    for y in walk_inl(unit, fn_body(cal), depth - 1, _seen):
+                    if "_nn" not in cal:
+                        cal["_nn"] = sum(1 for _ in walk(fn_body(cal)))
+                    if cal["_nn"] > max_nodes:
+                        continue   # a large callee is a dispatcher in its own right, not an extracted helper
+                    for y in walk_inl(unit, fn_body(cal), depth - 1, _seen, max_nodes=max_nodes):
                         yield y
 
 
